@@ -1607,11 +1607,12 @@ class ApplicationServiceAccessPoint(ApplicationServiceElement, ServiceAccessPoin
 
         elif isinstance(apdu, ComplexAckPDU):
             atype = complex_ack_types.get(apdu.apduService)
-            if not atype:
-                if _debug: ApplicationServiceAccessPoint._debug("    - no complex ack decoder")
-                return
 
             try:
+                # the transaction is over, an answer nobody can read is an
+                # outcome as well
+                if not atype:
+                    raise RuntimeError("no complex ack decoder: %r" % (apdu.apduService,))
                 xpdu = atype()
                 xpdu.decode(apdu)
             except Exception as err:
